@@ -1251,9 +1251,13 @@ func (sq *Queue) RemoveQueue() bool {
 	if len(sq.children) > 0 || len(sq.applications) > 0 {
 		return false
 	}
+	// the root queue has no parent and is never removed: when the partition is removed the root is marked as draining
+	// and the queue cleaner, which runs in its own goroutine, can get here while the partition is being taken down
+	if sq.parent == nil {
+		return false
+	}
 	log.Log(log.SchedQueue).Info("removing queue", zap.String("queue", sq.QueuePath))
 	sq.removeMetrics()
-	// root is always managed and is the only queue with a nil parent: no need to guard
 	sq.parent.removeChildQueue(sq.Name)
 	sq.queueEvents.SendRemoveQueueEvent(sq.QueuePath, sq.isManaged)
 	return true
